@@ -576,6 +576,10 @@ where
     /// ```
     ///
     pub fn add_event(&mut self, event: impl Into<A::EventSet>, time: SimTime) {
+        assert!(
+            time >= self.sim_time(),
+            "cannot schedule an event before the current simulation time"
+        );
         self.future_event_set.add(time, event);
         self.event_id += 1;
     }
